@@ -952,8 +952,45 @@ func liveBufferLending(r *R, rule string) {
 				changed = true
 			}
 		}
+		handed := map[ssa.Instruction]bool{} // calls that hand the buffer to a function of this module which is analysed in turn
 		for iter := 0; changed && iter < 20; iter++ {
 			changed = false
+			// a buffer passed to a function of the repository (e.g. the writer goroutine extracted into a method) is
+			// followed into that function: its parameter becomes an alias and the function joins the set examined
+			for _, fn := range fns {
+				allInstrs(fn, func(in ssa.Instruction) {
+					ci, ok := in.(ssa.CallInstruction)
+					if !ok || ci.Common().IsInvoke() {
+						return
+					}
+					callee := StaticCallee(ci.Common())
+					if callee == nil || len(callee.Blocks) == 0 || callee.Pkg == nil || !strings.HasPrefix(callee.Pkg.Pkg.Path(), modPrefix) || len(fns) > 12 {
+						return
+					}
+					args := ci.Common().Args
+					for i, a := range args {
+						if !alias[a] || i >= len(callee.Params) {
+							continue
+						}
+						handed[in] = true
+						if !alias[callee.Params[i]] {
+							alias[callee.Params[i]] = true
+							changed = true
+						}
+						known := false
+						for _, f := range fns {
+							if f == callee {
+								known = true
+							}
+						}
+						if !known {
+							fns = append(fns, callee)
+							fns = append(fns, Closures(callee)...)
+							changed = true
+						}
+					}
+				})
+			}
 			for _, fn := range fns {
 				for _, fv := range fn.FreeVars {
 					b := freeVarBinding(fv)
@@ -1013,11 +1050,45 @@ func liveBufferLending(r *R, rule string) {
 		n := 0
 		for _, fn := range fns {
 			allInstrs(fn, func(in ssa.Instruction) {
+				// the buffer must not be parked anywhere: no send on a channel, no store into a field, global, map or slice
+				kept := ""
+				switch x := in.(type) {
+				case *ssa.Send:
+					if alias[x.X] {
+						kept = "sent on a channel"
+					}
+				case *ssa.Select:
+					for _, st := range x.States {
+						if st.Send != nil && alias[st.Send] {
+							kept = "sent on a channel"
+						}
+					}
+				case *ssa.MapUpdate:
+					if alias[x.Value] {
+						kept = "stored in a map"
+					}
+				case *ssa.Store:
+					if alias[x.Val] {
+						switch x.Addr.(type) {
+						case *ssa.Alloc, *ssa.FreeVar:
+						default:
+							kept = "stored outside the function's locals"
+						}
+					}
+				}
+				if kept != "" {
+					n++
+					r.Bad(rule, fn, "live segment buffer "+kept, in.Pos(), "a slice that can be a memSegment's own buffer is "+kept+": whoever picks it up later overwrites data the segment still holds (after a failed block write the file's buffered bytes are corrupted and a later save references the corrupted block)")
+					return
+				}
 				ci, ok := in.(ssa.CallInstruction)
 				if !ok {
 					return
 				}
 				com := ci.Common()
+				if handed[in] {
+					return
+				}
 				for i, a := range com.Args {
 					if !alias[a] {
 						continue
